@@ -1419,6 +1419,21 @@ class TargetModel:
                 if set(prev) != set(online) or any(prev[k].shape != online[k].shape for k in prev):
                     res[key] = "arch_changed"
                     continue
+                tobj = getattr(agent, tg)
+                tmod = tobj[i] if isinstance(tobj, list) else tobj
+                real = {k: v.detach() for k, v in tmod.named_parameters()} if hasattr(tmod, "named_parameters") else {}
+                if real and set(real) == set(prev) and all(real[k].shape == prev[k].shape for k in prev):
+                    # the target exposes its weights: decide in weight space (exact up to float32 rounding of the tau rule) and let the
+                    # model follow the real weights, so that no classification error can accumulate over a long streak with a small tau
+                    upd = {k: tau * online[k].detach() + (1.0 - tau) * prev[k] for k in prev}
+                    is_u = all(torch.allclose(real[k], upd[k], rtol=1e-5, atol=1e-7) for k in prev)
+                    is_s = all(torch.equal(real[k], prev[k]) for k in prev)
+                    res[key] = "both" if (is_u and is_s) else "updated" if is_u else "unchanged" if is_s else "wrong"
+                    with torch.no_grad():
+                        for k, p in sh.named_parameters():
+                            p.copy_(real[k])
+                    self.w.ctx.probe("target_compared_in_weight_space")
+                    continue
                 with torch.no_grad():
                     for k, p in sh.named_parameters():
                         p.copy_(tau * online[k].detach() + (1.0 - tau) * prev[k])
@@ -1506,6 +1521,7 @@ def _expected_loss(agent, cfg, batch, seed) -> Optional[float]:
                 dz = (v_max - v_min) / (n_atoms - 1)
                 a_star = agent.actor(nobs).argmax(1)
                 p_next = agent.actor_target(nobs, q=False)[range(B), a_star].double()
+                p_next = p_next / p_next.sum(1, keepdim=True)  # a categorical target: the clamped softmax of the network is renormalised
                 logp = agent.actor(obs, q=False, log=True)[range(B), a].double()
                 m = torch.zeros(B, n_atoms, dtype=torch.float64)
                 for i in range(B):
@@ -1669,10 +1685,10 @@ def run_c08(ctx: kernel.Ctx, case: Dict[str, Any]) -> None:
             fa, ft = A.value_fp(ag), A.value_fp(twin)
             dd = [k for k in diff_fp(fa, ft) if k.startswith("net:")]
             if dd and algo == "RainbowDQN":
-                # Rainbow's clamped softmax lets next_obs of terminal rows perturb the target mass at the 1e-6 level and Adam
-                # amplifies that in the weights; the returned loss is the stable observable here
+                # float32 rounding of the (renormalised) target mass differs between the twins at the 1e-7 level and Adam amplifies that
+                # in the weights; the returned loss is the stable observable here
                 l1, l2 = float(out[0]), float(out_t[0])
-                if abs(l1 - l2) > 1e-4 * (1.0 + abs(l1)):
+                if abs(l1 - l2) > 1e-5 * (1.0 + abs(l1)):
                     ctx.report("C08/done_not_masked", f"op {oi} step {j}: replacing next observations of done rows changed the loss from {l1!r} to {l2!r}; done pattern {op['done']}", **w.loc)
                     twin = None
                 else:
